@@ -356,7 +356,13 @@ class ProtocolContext:
 
     def _check_buffer_for_cmd(self) -> None:
         self._lock.acquire()
-        assert isinstance(self.is_sending, bool), f"{self}: Coding error"  # mypy hint
+        try:
+            assert isinstance(
+                self.is_sending, bool
+            ), f"{self}: Coding error"  # mypy hint
+        except AssertionError:
+            self._lock.release()  # else the next call blocks the event loop forever
+            raise
 
         if not isinstance(self._state, IsInIdle) or (
             self._fut is not None and not self._fut.done()
